@@ -36,6 +36,7 @@ type HistStmt struct {
 	HasLimit bool   `json:"has_limit,omitempty"`
 	Off      int    `json:"off,omitempty"`
 	Cnt      int    `json:"cnt,omitempty"`
+	Pad      int    `json:"pad,omitempty"`
 }
 
 func (h *HistStmt) Render() string {
@@ -58,9 +59,9 @@ func (h *HistStmt) Render() string {
 		t := "delete where " + h.Pred
 		if h.HasLimit {
 			if h.Off > 0 {
-				t += fmt.Sprintf(" limit %d, %d", h.Off, h.Cnt)
+				t += fmt.Sprintf(" limit %0*d, %0*d", h.Pad, h.Off, h.Pad, h.Cnt)
 			} else {
-				t += fmt.Sprintf(" limit %d", h.Cnt)
+				t += fmt.Sprintf(" limit %0*d", h.Pad, h.Cnt)
 			}
 		}
 		return t
